@@ -95,7 +95,9 @@ def inputs(draw, with_df=False):
            "dask": draw(st.booleans()),
            # chunking of a lazily loaded source: frames per chunk (0 = one chunk), spatial halves
            "tchunk": draw(st.sampled_from([0, 0, 1, 2, 3, 4])), "schunk": draw(st.booleans()),
-           "zarr": draw(st.integers(0, 3)) == 0}
+           "zarr": draw(st.integers(0, 3)) == 0,
+           # non-native byte order (as some writers store label images); same values
+           "big_endian": draw(st.integers(0, 4)) == 0}
     if with_df:
         out["with_pos"] = draw(st.booleans())
         out["scale"] = draw(st.sampled_from([None, [1.0, 1.0, 1.0, 1.0][: len(spatial) + 1],
@@ -114,7 +116,10 @@ def _chunks(inp, seg):
 
 def _build(inp):
     spatial = tuple(inp["spatial"])
-    seg = np.zeros((len(inp["frames"]), *spatial), dtype=inp["dtype"])
+    dt = np.dtype(inp["dtype"])
+    if inp.get("big_endian") and dt.itemsize > 1:
+        dt = dt.newbyteorder(">")
+    seg = np.zeros((len(inp["frames"]), *spatial), dtype=dt)
     for t, fr in enumerate(inp["frames"]):
         for d in fr:
             seg[t][tuple(slice(a, b) for a, b in zip(*d["box"]))] = d["label"]
@@ -130,6 +135,8 @@ def _expected(inp, src):
 
 
 def _classify(res, inp, src):
+    if src.dtype.byteorder == ">":
+        res.tags.append("c13:big_endian_source")
     nodes = inp["nodes"]
     listed = {(n["t"], n["seg_id"]) for n in nodes}
     all_dets = {(t, d["label"]) for t, fr in enumerate(inp["frames"]) for d in fr}
